@@ -14,8 +14,10 @@ def run(ctx):
     ctx.rule = ("cases = encoding class tuples (5 classes per coordinate, G1: 2 coordinates, G2: 4, residues on/off the curve) and law "
                 "instances (homomorphism, scalar multiplication, associativity/commutativity, inverse/identity, order, round trip, "
                 "bilinearity, non-degeneracy) over 10 scalar classes for G1, G2, GT, all enumerated by TLC from Bn256Enc; distinct = "
-                "distinct case record; class tuples that cannot be materialised (a curve point with a prescribed zero / 2^256-1 "
-                "coordinate) are counted as unrealised, not as evaluated")
+                "distinct case record; the model marks the class tuples that must be materialised (all off-curve tuples; on-curve tuples that "
+                "prescribe the residue of at most one coordinate, built with square and cube roots in GF(p) and GF(p^2); on G1 no affine point "
+                "has a zero coordinate, which the harness verifies) -- a required tuple that cannot be built is exit 2; tuples prescribing "
+                "two or more residues are built where a solution exists and counted as unrealised_optional otherwise")
     ctx.assumptions = [
         "the curve parameters (p, Order, the curve and twist constants, the generators) are the definition of the groups",
         "metamorphic binding: both sides of every law are computed by the package itself; expected logarithms with math/big",
@@ -23,26 +25,41 @@ def run(ctx):
         "group laws are checked on elements generated from the generators (G2.Unmarshal does not check subgroup membership; the property does not ask for it)",
     ]
     import concurrent.futures as cf
-    with cf.ThreadPoolExecutor(max_workers=3) as ex:
+    with cf.ThreadPoolExecutor(max_workers=5) as ex:
         f1 = ex.submit(lambda: ctx.tlc("Bn256Enc_MC", cfg="Bn256Enc_MC.cfg", workers=2, timeout=900))
-        # the predicate the code implements violates 'one encoding per element' already in the toy instance: documented counterexample
+        # a toy curve that has points with a zero coordinate (as the real twist has)
+        f0 = ex.submit(lambda: ctx.tlc("Bn256Enc_MC", cfg="Bn256Enc_MC0.cfg", workers=2, timeout=900))
+        # Doc configurations: the two wrong predicates (the code before the repair 57c7a7b; an off-by-one comparison with p)
+        # lose 'one encoding per element' already in the toy instance -- TLC must still find these counterexamples
         f2 = ex.submit(lambda: ctx.tlc("Bn256Enc_MC", cfg="Bn256Enc_DocImpl.cfg", workers=1, timeout=900, expect_violation=True, count=False,
-                                       note="documents finding C52-F5 at toy scale: expected counterexample to ImplOneEncoding"))
+                                       note="expected counterexample: the pre-repair predicate (coordinates reduced modulo p) gives an element several encodings"))
+        f4 = ex.submit(lambda: ctx.tlc("Bn256Enc_MC", cfg="Bn256Enc_DocLeP.cfg", workers=1, timeout=900, expect_violation=True, count=False,
+                                       note="expected counterexample: a comparison '<= p' accepts the value p as a second spelling of a zero coordinate"))
         f3 = ex.submit(lambda: ctx.tlc("Bn256Enc_MC", cfg="Bn256Enc_Gen.cfg", workers=1, timeout=900, count=False))
-        m, r, g = f1.result(), f2.result(), f3.result()
-    if not m.ok:
-        raise vlib.Infra("design model Bn256Enc: %s violated (model-level counterexample):\n%s" % (m.violated, (m.cex or m.raw[-3000:])[:5000]))
+        m, m0, r, r2, g = f1.result(), f0.result(), f2.result(), f4.result(), f3.result()
+    for mm in (m, m0):
+        if not mm.ok:
+            raise vlib.Infra("design model Bn256Enc: %s violated (model-level counterexample):\n%s" % (mm.violated, (mm.cex or mm.raw[-3000:])[:5000]))
     if not g.ok:
         raise vlib.Infra("generator Bn256Enc_Gen failed: %s" % (g.cex or g.raw[-2000:])[:3000])
-    if r.violated != "ImplOneEncoding":
-        ctx.notes.append("the toy counterexample to ImplOneEncoding was not found (TLC: %r)" % r.violated)
+    if r.violated != "OldOneEncoding" or r2.violated != "LePOneEncoding":
+        raise vlib.Infra("the documented toy counterexamples were not found (TLC: %r, %r): the model no longer separates the wrong predicates" % (r.violated, r2.violated))
     if not g.traces:
         raise vlib.Infra("generator produced no cases")
     ctx.log("%d cases" % len(g.traces))
     res = ctx.go_test("c52", "^TestCases$", cases=g.traces, timeout=3000)
     ctx.absorb(res)
     ex = res.get("extra", {})
-    if ex.get("enc_cases_G1", 0) < 20 or ex.get("enc_cases_G2", 0) < 300 or ex.get("law_cases", 0) < 1500:
+    must = sum(1 for t in g.traces if t.get("kind") == "enc" and t.get("must"))
+    missing = ex.get("unrealised_must_G1", 0) + ex.get("unrealised_must_G2", 0)
+    ctx.extra["enc_class_tuples_required"] = must
+    if missing:
+        raise vlib.Infra("%d class tuples the model requires could not be materialised by the harness: %s" % (missing, ex.get("unrealised_must_samples")))
+    for comp in range(4):
+        for spelling in ("p", "zero"):
+            if not ex.get("zero_component_on_curve_G2_%d_%s" % (comp, spelling)):
+                raise vlib.Infra("no twist point with component %d congruent to 0 written as %s was materialised" % (comp, spelling))
+    if ex.get("enc_cases_G1", 0) + ex.get("enc_cases_G2", 0) < must or ex.get("law_cases", 0) < 1500:
         raise vlib.Infra("too few cases materialised: %s" % ex)
     ctx.exhaustive = True
     ctx.notes.append("exhaustive over the modelled classes; within a class the points and the scalars r1, r2 are seeded random (thorough: 10 materialisations per case)")
